@@ -4,6 +4,8 @@
 
 use std::sync::Arc;
 
+use crate::{exec::block_on, report::hex_short};
+
 use passkey_authenticator::Authenticator;
 use passkey_client::{Client, DefaultClientData, WebauthnError};
 use passkey_types::{ctap2, webauthn::UserVerificationRequirement};
@@ -38,12 +40,14 @@ struct Shape {
     /// registration only: UV-only PRF configuration with evaluation at creation, PRF requested,
     /// verification not requested - the extension step fails (nothing may have been stored)
     ext_fail: bool,
+    /// authentication only: the stored signature counters sit at u32::MAX
+    max_counter: bool,
 }
 
 impl Shape {
     fn json(&self) -> Value {
         json!({"op": if self.reg {"registration"} else {"authentication"}, "level": if self.client {"client"} else {"ctap"},
-            "list": self.list, "prf_extension": self.prf, "counters": self.counters, "rk": self.rk, "credential_without_prf_secret": self.no_secret, "extension_step_fails": self.ext_fail})
+            "list": self.list, "prf_extension": self.prf, "counters": self.counters, "rk": self.rk, "credential_without_prf_secret": self.no_secret, "extension_step_fails": self.ext_fail, "stored_counter_at_u32_max": self.max_counter})
     }
     fn all() -> Vec<Shape> {
         let mut v = Vec::new();
@@ -56,17 +60,22 @@ impl Shape {
                                 if !reg && rk {
                                     continue;
                                 }
-                                v.push(Shape { reg, client, list, prf, counters, rk, no_secret: false, ext_fail: false });
+                                v.push(Shape { reg, client, list, prf, counters, rk, no_secret: false, ext_fail: false, max_counter: false });
                                 if !reg && prf {
-                                    v.push(Shape { reg, client, list, prf, counters, rk, no_secret: true, ext_fail: false });
+                                    v.push(Shape { reg, client, list, prf, counters, rk, no_secret: true, ext_fail: false, max_counter: false });
                                 }
                                 if reg && prf {
-                                    v.push(Shape { reg, client, list, prf, counters, rk, no_secret: false, ext_fail: true });
+                                    v.push(Shape { reg, client, list, prf, counters, rk, no_secret: false, ext_fail: true, max_counter: false });
                                 }
                             }
                         }
                     }
                 }
+            }
+        }
+        for client in [false, true] {
+            for list in [false, true] {
+                v.push(Shape { reg: false, client, list, prf: false, counters: true, rk: false, no_secret: false, ext_fail: false, max_counter: true });
             }
         }
         v
@@ -108,8 +117,8 @@ fn seed_store(rig: &Rig, sh: &Shape) -> Vec<u8> {
     let mut rng = Rng::derive(11, "c07seed", 0);
     let hm = if sh.prf && !sh.no_secret { Some((rng.bytes(32), Some(rng.bytes(32)))) } else { None };
     let id0 = vec![0xC0; 24];
-    let (p0, _, _) = seeded_passkey(&mut rng, RP, &id0, Some(b"user-0"), if sh.counters { Some(41) } else { None }, hm.clone());
-    let (p1, _, _) = seeded_passkey(&mut rng, RP, &[0xC1; 24], Some(b"user-1"), if sh.counters { Some(7) } else { None }, hm);
+    let (p0, _, _) = seeded_passkey(&mut rng, RP, &id0, Some(b"user-0"), if sh.max_counter { Some(u32::MAX) } else if sh.counters { Some(41) } else { None }, hm.clone());
+    let (p1, _, _) = seeded_passkey(&mut rng, RP, &[0xC1; 24], Some(b"user-1"), if sh.max_counter { Some(u32::MAX) } else if sh.counters { Some(7) } else { None }, hm);
     let (p2, _, _) = seeded_passkey(&mut rng, "other.example", &[0xC2; 24], Some(b"user-0"), Some(3), None);
     rig.store.insert_raw(p0);
     rig.store.insert_raw(p1);
@@ -456,12 +465,113 @@ fn codes(thorough: bool) -> Vec<u8> {
     }
 }
 
+/// Registrations through the stores shipped with the library, empty and already occupied: a success
+/// means the store holds the credential the response names.
+fn shipped_store_registrations(rep: &mut Report, args: &Args, only: Option<u64>) {
+    use passkey_authenticator::MemoryStore;
+    use passkey_types::Passkey;
+    let n = args.size(60, 600) as u64;
+    for k in 0..n {
+        let index = 40_000_000 + k;
+        if only.map_or(false, |o| o != index) {
+            continue;
+        }
+        let mut rng = Rng::derive(args.seed, "c07shipped", k);
+        let occupied = rng.range(0, 3);
+        let existing: Vec<Passkey> = (0..occupied)
+            .map(|j| {
+                let rp = if rng.bool() { RP } else { "other.example" };
+                seeded_passkey(&mut rng, rp, &[0xD0 + j as u8; 24], Some(b"user-x"), Some(5), None).0
+            })
+            .collect();
+        let kind = rng.below(6);
+        let regs = rng.range(1, 3);
+        let rk = rng.bool();
+        let counters = rng.bool();
+        let names = ["Option<Passkey>", "Arc<Mutex<Option<Passkey>>>", "Arc<RwLock<Option<Passkey>>>", "MemoryStore", "Arc<Mutex<MemoryStore>>", "Arc<RwLock<MemoryStore>>"];
+        let case = json!({"index": index, "store": names[kind], "credentials_before": existing.iter().map(|p| json!({"id": hex_short(&p.credential_id), "rp": p.rp_id})).collect::<Vec<_>>(), "registrations": regs, "rk": rk, "counters": counters});
+        rep.eval();
+        rep.nontrivial(fnv_str(&format!("shipped|{kind}|{occupied}|{regs}|{rk}")));
+        let uv = crate::collab::RecUv::new(crate::collab::Log::new(), crate::collab::UvOutcome::Check { presence: true, verification: true }, Some(true));
+        let cfg = AuthCfg { counters, id_len: Some(24), ..Default::default() };
+        macro_rules! drive {
+            ($store:expr, $ids:expr) => {{
+                let store = $store;
+                let mut auth = mk_auth(store.clone(), uv.clone(), cfg);
+                for r in 0..regs {
+                    let req = mc_request(RP, format!("user-{r}").as_bytes(), &[1u8; 32], vec![pk_param(coset::iana::Algorithm::ES256)], None, None, rk, true, true);
+                    match catch(|| block_on(auth.make_credential(req))) {
+                        Err((sig, d)) => rep.violate(&format!("shipped store: registration {sig}"), d, case.clone()),
+                        Ok(Err(_)) => rep.count("shipped_reg_failed"),
+                        Ok(Ok(resp)) => {
+                            rep.count("shipped_reg_ok");
+                            let id = authdata::decode(&resp.auth_data.to_vec()).ok().and_then(|d| d.attested.map(|a| a.cred_id)).unwrap_or_default();
+                            let held: Vec<Vec<u8>> = $ids(&store);
+                            if !held.contains(&id) {
+                                rep.violate("shipped store: registration succeeded although the store does not hold the new credential", format!("{} after registration {r}: new id {}, store holds {:?}", names[kind], hex_short(&id), held.iter().map(|i| hex_short(i)).collect::<Vec<_>>()), case.clone());
+                            }
+                        }
+                    }
+                }
+            }};
+        }
+        let single = existing.first().cloned();
+        let mut mem = MemoryStore::new();
+        for p in &existing {
+            mem.insert(p.credential_id.to_vec(), p.clone());
+        }
+        match kind {
+            0 => {
+                // a plain Option<Passkey> is moved into the authenticator: read it back through store()
+                let mut auth = mk_auth(single, uv.clone(), cfg);
+                for r in 0..regs {
+                    let req = mc_request(RP, format!("user-{r}").as_bytes(), &[1u8; 32], vec![pk_param(coset::iana::Algorithm::ES256)], None, None, rk, true, true);
+                    match catch(|| block_on(auth.make_credential(req))) {
+                        Err((sig, d)) => rep.violate(&format!("shipped store: registration {sig}"), d, case.clone()),
+                        Ok(Err(_)) => rep.count("shipped_reg_failed"),
+                        Ok(Ok(resp)) => {
+                            rep.count("shipped_reg_ok");
+                            let id = authdata::decode(&resp.auth_data.to_vec()).ok().and_then(|d| d.attested.map(|a| a.cred_id)).unwrap_or_default();
+                            let held: Vec<Vec<u8>> = auth.store().iter().map(|p| p.credential_id.to_vec()).collect();
+                            if !held.contains(&id) {
+                                rep.violate("shipped store: registration succeeded although the store does not hold the new credential", format!("{} after registration {r}: new id {}, store holds {:?}", names[kind], hex_short(&id), held.iter().map(|i| hex_short(i)).collect::<Vec<_>>()), case.clone());
+                            }
+                        }
+                    }
+                }
+            }
+            1 => drive!(Arc::new(tokio::sync::Mutex::new(single)), |s: &Arc<tokio::sync::Mutex<Option<Passkey>>>| s.try_lock().map(|g| g.iter().map(|p| p.credential_id.to_vec()).collect::<Vec<_>>()).unwrap_or_default()),
+            2 => drive!(Arc::new(tokio::sync::RwLock::new(single)), |s: &Arc<tokio::sync::RwLock<Option<Passkey>>>| s.try_read().map(|g| g.iter().map(|p| p.credential_id.to_vec()).collect::<Vec<_>>()).unwrap_or_default()),
+            3 => {
+                let mut auth = mk_auth(mem, uv.clone(), cfg);
+                for r in 0..regs {
+                    let req = mc_request(RP, format!("user-{r}").as_bytes(), &[1u8; 32], vec![pk_param(coset::iana::Algorithm::ES256)], None, None, rk, true, true);
+                    match catch(|| block_on(auth.make_credential(req))) {
+                        Err((sig, d)) => rep.violate(&format!("shipped store: registration {sig}"), d, case.clone()),
+                        Ok(Err(_)) => rep.count("shipped_reg_failed"),
+                        Ok(Ok(resp)) => {
+                            rep.count("shipped_reg_ok");
+                            let id = authdata::decode(&resp.auth_data.to_vec()).ok().and_then(|d| d.attested.map(|a| a.cred_id)).unwrap_or_default();
+                            let held: Vec<Vec<u8>> = auth.store().values().map(|p| p.credential_id.to_vec()).collect();
+                            if !held.contains(&id) {
+                                rep.violate("shipped store: registration succeeded although the store does not hold the new credential", format!("{} after registration {r}: new id {}, store holds {:?}", names[kind], hex_short(&id), held.iter().map(|i| hex_short(i)).collect::<Vec<_>>()), case.clone());
+                            }
+                        }
+                    }
+                }
+            }
+            4 => drive!(Arc::new(tokio::sync::Mutex::new(mem)), |s: &Arc<tokio::sync::Mutex<MemoryStore>>| s.try_lock().map(|g| g.values().map(|p| p.credential_id.to_vec()).collect::<Vec<_>>()).unwrap_or_default()),
+            _ => drive!(Arc::new(tokio::sync::RwLock::new(mem)), |s: &Arc<tokio::sync::RwLock<MemoryStore>>| s.try_read().map(|g| g.values().map(|p| p.credential_id.to_vec()).collect::<Vec<_>>()).unwrap_or_default()),
+        }
+    }
+}
+
 pub fn run(args: &Args) -> Report {
     let mut rep = Report::new(
         "C07",
         &args.tier,
         args.seed,
-        "for each request shape (registration/authentication x client/CTAP level x exclude/allow list x PRF extension x counters x rk): a clean run to learn the store-call sequence, then every faultable store call failing with each status byte of the tier's set, all pairs of calls failing with 4 codes, and cancellation after every number of polls with collaborators yielding 1 and 2 times per call, plus cancellation while the store lock is held by another task; distinct by (shape, fault set or cancellation step, yield plan); non-trivial when the fault or cancellation point was actually reached",
+        "for each request shape (registration/authentication x client/CTAP level x exclude/allow list x PRF extension x counters x rk): a clean run to learn the store-call sequence, then every faultable store call failing with each status byte of the tier's set, all pairs of calls failing with 4 codes, and cancellation after every number of polls with collaborators yielding 1 and 2 times per call, plus cancellation while the store lock is held by another task; authentication shapes with the stored counters at u32::MAX; registrations (1-2 in a row) through the shipped stores and their lock wrappers, empty or already occupied; distinct by (shape, fault set or cancellation step, yield plan); non-trivial when the fault or cancellation point was actually reached",
     );
     rep.exhaustive = true;
     rep.assumptions.push("get_info of the store cannot fail (it returns no Result), so only lookup, save and update are faulted".into());
@@ -619,6 +729,9 @@ pub fn run(args: &Args) -> Report {
     // ---- seeded ceremony histories: every failed registration / authentication, whatever the reason
     if only.is_none() || only.map_or(false, |o| o >= 50_000_000) {
         history_sweep(&mut rep, args, only);
+    }
+    if only.is_none() || only.map_or(false, |o| (40_000_000..50_000_000).contains(&o)) {
+        shipped_store_registrations(&mut rep, args, only);
     }
     rep.obs("shapes", json!(Shape::all().len()));
     rep.obs("status_bytes_per_call", json!(codes(args.thorough()).len()));
